@@ -37,6 +37,7 @@ theorem ASim.restrict {u₁ u₂ : St} (h : ASim P u₁ u₂) (N G : Nat) (hN : 
     exact ⟨⟨(h.gdom j hj).1, by omega⟩, (h.gdom j hj).2⟩
   · exact h.bxlt
   · exact h.bne
+  · exact h.wf
   · intro i n hd hn
     exact h.nodes i n hd.1 hn
   · intro j g hd hg
@@ -75,6 +76,7 @@ theorem ASim.glue (ok : P.Ok) {u₁ u₂ v₁ v₂ : St} (h : ASim P u₁ u₂) 
   · intro j hj; exact ⟨(h'.gdom j hj).1.1, (h'.gdom j hj).2⟩
   · exact h'.bxlt
   · exact h'.bne
+  · exact h'.wf
   · intro i n hd hn
     rcases Nat.lt_or_ge i N with hi | hi
     · rw [fn1 i hi] at hn
@@ -117,8 +119,8 @@ variable {X : SParams}
 
 /-- what the nested parser of an `insert_as_block` row is known to do (induction hypothesis) -/
 def BodyRel (body : List Event) : Prop :=
-  ∀ (P : Params) (X : SParams) (s₁ s₂ : St), P.Ok → Sim P X s₁ s₂ → X.F = [] → CL P s₁ → SB s₁ →
-    rwp (steps body) (steps body) s₁ s₂ (fun _ t₁ _ t₂ => Sim P X t₁ t₂ ∧ CL P t₁ ∧ SB t₁)
+  ∀ (P : Params) (X : SParams) (s₁ s₂ : St), P.Ok → Sim P X s₁ s₂ → X.F = [] → CL P s₁ → SB s₁ → RV s₁ →
+    rwp (steps body) (steps body) s₁ s₂ (fun _ t₁ _ t₂ => Sim P X t₁ t₂ ∧ Eff P s₁ t₁)
 
 /-- the state in which the nested parser starts -/
 def enterSt (s : St) : St :=
@@ -146,7 +148,7 @@ theorem insert_rel (ok : P.Ok) {s₁ s₂ : St} (h : Sim P X s₁ s₂) (r : Row
   have h0 : P.γ s₁.groups.size = s₂.groups.size := by simpa using h.1.gsync 0
   have hne : s₁.groups.size ≠ P.bx := by have := h.1.bxlt; omega
   have a1 := h.1.addGrp (.block []) (by intro i hi; simp [gnodes] at hi) (by intro x hx; simp [grefs] at hx)
-    (by intro x hx; simp [grefs] at hx)
+    (by intro x hx; simp [grefs] at hx) ⟨by intro i hi; simp [gnodes] at hi, by intro x hx; simp [grefs] at hx⟩
   -- the states after `insertEnter`
   generalize hu₁ : enterSt s₁ = u₁
   generalize hu₂ : enterSt s₂ = u₂
@@ -205,9 +207,17 @@ theorem insert_rel (ok : P.Ok) {s₁ s₂ : St} (h : Sim P X s₁ s₂) (r : Row
     simp only [List.mem_singleton] at hb
     subst hb
     exact ⟨[], by simp⟩
+  have rv' : RV u₁ := by
+    rw [← hu₁]
+    unfold enterSt
+    intro p hp; simp at hp
   rw [rwp_bind]
-  refine rwp_mono (hbody _ _ u₁ u₂ (ok.restrict _ _ _ _) ⟨a', ss'⟩ rfl cl' sb') ?_
-  intro _ v₁ _ v₂ ⟨hv, _, _⟩
+  refine rwp_mono (hbody _ _ u₁ u₂ (ok.restrict _ _ _ _) ⟨a', ss'⟩ rfl cl' sb' rv') ?_
+  intro _ v₁ _ v₂ ⟨hv, hefn⟩
+  have hvsz : s₁.groups.size + 1 ≤ v₁.groups.size := by
+    have := hefn.hk.2.2
+    rw [eu1] at this
+    simpa using this
   have av : ASim P v₁ v₂ := ASim.glue ok au hv.1
   unfold insertLeave
   rw [rwp_get]
@@ -235,7 +245,27 @@ theorem insert_rel (ok : P.Ok) {s₁ s₂ : St} (h : Sim P X s₁ s₂) (r : Row
     rw [eu1, Array.getElem?_push]
     have : ¬ b = s₁.groups.size := by omega
     simp [this]
-  have hef : Eff P s₁ w₁ := Eff.of_stackSame hss
+  have hlow : ∀ j, j < s₁.groups.size → w₁.groups[j]? = s₁.groups[j]? := by
+    intro j hj
+    rw [← hw₁]
+    show v₁.groups[j]? = s₁.groups[j]?
+    rw [hv.1.fr1g j (fun hdd => by have := hdd.2; omega)]
+    show u₁.groups[j]? = s₁.groups[j]?
+    rw [eu1, Array.getElem?_push]
+    have : ¬ j = s₁.groups.size := by omega
+    simp [this]
+  have hwsz : s₁.groups.size ≤ w₁.groups.size := by
+    rw [← hw₁]
+    show s₁.groups.size ≤ v₁.groups.size
+    omega
+  have hef : Eff P s₁ w₁ := by
+    refine Eff.of_stackSame hss ?_ ?_
+    · intro hr p hp
+      have hp' : p ∈ s₁.rowIds := by rw [← hw₁] at hp; exact hp
+      exact Nat.lt_of_lt_of_le (hr p hp') hwsz
+    · refine ⟨fun j i l t hg => ⟨l, ?_⟩, fun j c cs hg => ⟨cs, ?_⟩, hwsz⟩
+      · rw [hlow j (Array.getElem?_eq_some_iff.mp hg).1]; exact hg
+      · rw [hlow j (Array.getElem?_eq_some_iff.mp hg).1]; exact hg
   rw [rwp_bind]
   refine rwp_of_run (fuelOf_run w₁) (fuelOf_run w₂) ?_
   rw [rwp_bind]
@@ -252,12 +282,20 @@ theorem insert_rel (ok : P.Ok) {s₁ s₂ : St} (h : Sim P X s₁ s₂) (r : Row
   have hpre' : EdgesPre P X w₁ (dropTrivial r.edges) := hpre.mono hef.mr
   refine rwp_mono (edges_rel ok hw (.node n.uid) (dropTrivial r.edges) hpre'.1 hpre'.2) ?_
   intro _ x₁ _ x₂ ⟨hx, e1, e2, hb⟩
-  have hap := appendGroup_rel ok hx r.rowId hd.1 (fun ht => absurd ht hd.2)
+  have hxlt : s₁.groups.size < x₁.groups.size := by
+    have h1 := hb.2.2.1
+    have h2 : s₁.groups.size < w₁.groups.size := by
+      rw [← hw₁]
+      show s₁.groups.size < v₁.groups.size
+      omega
+    omega
+  have hap := appendGroup_rel ok hx r.rowId hd.1 hxlt (fun ht => absurd ht hd.2)
   rw [h0] at hap
   refine rwp_mono hap ?_
-  intro _ t₁ _ t₂ ⟨ht, e3, _, _, hsbt, hm⟩
-  have hef2 : Eff P s₁ x₁ := hef.trans (Eff.of_blkEq hb)
-  refine ⟨ht, ?_, (hm hd.2).1, fun _ => (hm hd.2).1, fun hc => (hm hd.2).2 (hef2.cl hc), fun hs => hsbt (hef2.sb hs)⟩
+  intro _ t₁ _ t₂ ⟨ht, e3, _, _, hsbt, hrvt, hhk, hm⟩
+  have hef2 : Eff P s₁ x₁ := hef.trans (Eff.of_blkEq hb e1.2.1)
+  refine ⟨ht, ?_, (hm hd.2).1, fun _ => (hm hd.2).1, fun hc => (hm hd.2).2 (hef2.cl hc), fun hs => hsbt (hef2.sb hs),
+    fun hr => hrvt (hef2.rv hr), hef2.hk.trans hhk⟩
   rw [e3, e1.1, ← hw₁]; rfl
 
 end Rpft.Compile
